@@ -168,7 +168,7 @@ theorem failed_save_is_clean (P : Params V) (d0 : Doc V) (chain0) (hb : BaseOK d
 
 /-- **C09, "several saves in a row"**: from a savable document any number of saves in a row all
     succeed, as long as the table stays within the reader's limit (each save allocates at most two numbers). -/
-theorem saves_in_a_row (P : Params V) (hx : P.ok P.xrefVal = true) (d0 : Doc V) (chain0) (hb : BaseOK d0 chain0) :
+theorem saves_in_a_row (P : Params V) (hx : ∀ i, P.ok (P.xrefVal i) = true) (d0 : Doc V) (chain0) (hb : BaseOK d0 chain0) :
     ∀ (Ls : List Layout), (∀ L ∈ Ls, L.Pos) → ∀ (d : Doc V), Inv d0 d → Savable P d →
       d.st.refs.length + 2 * Ls.length ≤ MAX_ID →
       ∀ r ∈ (run P d (Ls.map Op.save)).2, ∃ i, r = Res.saved i := by
@@ -198,7 +198,7 @@ def tiny : Doc Nat :=
      [⟨50, [⟨0, [.free 0 65535, .raw 10 0, .raw 20 0, .stream 4 0, .raw 30 0]⟩], 6, none, (1, 0), none⟩],
      80, 0, 50⟩, ⟨(1, 0), none, none⟩⟩
 
-def PN : Params Nat := ⟨fun v => v != 13, 0⟩
+def PN : Params Nat := ⟨fun v => v != 13, fun _ => 0⟩
 def L5 : Layout := ⟨fun _ => 5, 7, 3⟩
 
 /-- `tiny` is what loading its own bytes gives -/
